@@ -89,6 +89,7 @@ type remote struct {
 	sd                       *privval.SignerDialerEndpoint
 	ss                       *privval.SignerServer
 	g                        *guardPV
+	loader                   string
 }
 
 func newRemote(keyPath, statePath string) (*remote, error) {
@@ -115,7 +116,14 @@ func newRemote(keyPath, statePath string) (*remote, error) {
 
 // startServer: a new incarnation of the signer process: FilePV loaded from disk, dials the node
 func (r *remote) startServer() error {
-	r.g = &guardPV{pv: privval.LoadFilePV(r.keyPath, r.statePath)}
+	switch r.loader {
+	case "load":
+		r.g = &guardPV{pv: privval.LoadFilePV(r.keyPath, r.statePath)}
+	case "emptystate":
+		r.g = &guardPV{pv: privval.LoadFilePVEmptyState(r.keyPath, r.statePath)}
+	default: // what a signer process / node.DefaultNewNode uses
+		r.g = &guardPV{pv: privval.LoadOrGenFilePV(r.keyPath, r.statePath)}
+	}
 	r.sd = privval.NewSignerDialerEndpoint(log.NewNopLogger(), privval.DialUnixFn(r.sock))
 	privval.SignerDialerEndpointTimeoutReadWrite(2 * time.Second)(r.sd)
 	privval.SignerDialerEndpointConnRetries(1000)(r.sd)
